@@ -82,7 +82,12 @@ fn model_hash_iterations(m: &Model, sig: &[u8], pk: &[u8], msg: &[u8]) -> Option
 pub fn check_fv(pool: &ProbePool, ov: &[(usize, u32, u32)], c: &FvCase) -> Verdict {
     let n = c.hash.n();
     let m = Model::with_overrides(c.hash, ov);
-    let seed = gen::expand(0xc15 ^ c.tag, n);
+    let mut seed = gen::expand(0xc15 ^ c.tag, n);
+    if c.levels.len() == 8 {
+        // the longest parameter list has no end marker: marker-like bytes follow in the seed
+        seed[0] = 0x34;
+        seed[1 + (c.tag as usize % (n - 1))] = 0xff;
+    }
     let total: u64 = 1u64 << c.levels.iter().map(|l| l.1).sum::<u32>();
     let counter = c.counter % total;
     let blob = hss::private_key_blob(&c.levels, counter, &seed);
@@ -207,6 +212,9 @@ pub fn run(ctx: &Ctx) {
         let reps = ctx.tier.pick(5u8, 12u8);
         for h in ALL_HASHES {
             let n = h.n();
+            for t in 0..4u64 {
+                cases.push(FvCase { config: name.clone(), hash: h, levels: vec![(8, 2); 8], counter: 1000 * t + 255, len: n + 5 + t as usize, tag: t * 5, dirty_trailer: None, accept: true, rep: 0, aux_budget: None });
+            }
             for w in [1u32, 2, 4, 8] {
                 for (si, levels) in [vec![(w, 2u32)], vec![(8, 2), (w, 2)], vec![(4, 2), (w, 5)]].into_iter().enumerate() {
                     if si == 2 && (w == 8 || ctx.quick() && h.index() % 2 == 1) {
@@ -222,7 +230,7 @@ pub fn run(ctx: &Ctx) {
                     }
                     // messages longer than 64 KiB (lengths around multiples of 65536)
                     if si == 0 && (w == 4 || w == 1) {
-                        for (k, len) in [65_536usize, 65_536 + 20, 65_537 + n, 131_072 + 5, 200_000].iter().enumerate() {
+                        for (k, len) in [65_535usize, 65_535 + n, 65_536, 65_536 + 20, 65_537 + n, 131_070, 131_070 + n, 131_071 + n, 131_072 + 5, 196_605, 196_605 + n, 200_000].iter().enumerate() {
                             cases.push(FvCase { config: name.clone(), hash: h, levels: levels.clone(), counter: k as u64 % total, len: *len, tag: 0xb0 + k as u64, dirty_trailer: None, accept: k != 3, rep: 0, aux_budget: None });
                         }
                     }
